@@ -102,10 +102,16 @@ func CalculateAmountToClaim(
 		remainingDepositValue = sdk.NewCoin(deposit.Denom, sdk.NewInt(0))
 	} else {
 		// calculate based on flow rate and remaining deposit
-		timeSinceLast := nowTime.Sub(lastOutflowTime)
-		secondsSinceLast := int64(timeSinceLast.Seconds())
-		numCoins := secondsSinceLast * flowRate
-		amountToClaim = sdk.NewCoin(deposit.Denom, sdk.NewIntFromUint64(uint64(numCoins)))
+		// whole seconds elapsed since the last outflow, computed on integers
+		secondsSinceLast := nowTime.Unix() - lastOutflowTime.Unix()
+		if nowTime.Nanosecond() < lastOutflowTime.Nanosecond() {
+			secondsSinceLast = secondsSinceLast - 1
+		}
+		if secondsSinceLast < 0 {
+			secondsSinceLast = 0
+		}
+		numCoins := sdk.NewInt(secondsSinceLast).Mul(sdk.NewInt(flowRate))
+		amountToClaim = sdk.NewCoin(deposit.Denom, numCoins)
 		if deposit.Amount.GT(amountToClaim.Amount) {
 			remainingDepositValue = deposit.Sub(amountToClaim)
 		} else {
